@@ -8,9 +8,9 @@
        colons of a slice (where the scanner's own rules swallow them);  not inside a lexeme;
      - a quoted name or string literal in single or double quotes, with any escapes that decode
        to the same string (Parser._decode_string_literal);
-     - a bracketed segment holding one name, written ".name" (or "name" right after ".."), the
-       wildcard written ".*" / "*", the keys selector written "~";  a lone "." (which the scanner
-       skips) before a bracketed segment.
+     - a bracketed segment holding one name, written ".name" or just "name" (as after ".."), the
+       wildcard written ".*" / "*", the keys selector written ".~" / "~";  a lone "." (which the
+       scanner skips) anywhere between lexemes.
    Where no blank is written between two lexemes, the first must be one that the following
    character cannot extend or change ([fits]); this is the only side condition.
    Not covered (the token VALUES or the structure change): omitted slice step, redundant
@@ -57,6 +57,8 @@ Definition lex_toks (l : lexeme) : list token :=
   | XBare k => [mkTok TBare k]
   | XDot => []
   end.
+
+Definition X (k : tkind) (v : list N) : lexeme := XTok (mkTok k v).
 
 (* ---- which lexemes are well formed ------------------------------------------------------- *)
 
@@ -183,146 +185,197 @@ Fixpoint chain_ok (E : env) (items : list item) (wf : ustr) : Prop :=
 
 Definition chain_toks (items : list item) : list token := flat_map (fun it => lex_toks (snd it)) items.
 
-(* ---- the lexemes of a query, with the choices ---------------------------------------------- *)
+(* ---- the tokens of a query with shorthand ------------------------------------------------- *)
 
-Definition X (k : tkind) (v : list N) : lexeme := XTok (mkTok k v).
-Definition Xop (o : binop) : lexeme := XTok (op_token o).
+(* A segment that consists of one name, wildcard or keys selector can be written in brackets or
+   in shorthand.  The choice is recorded in the query itself: [GSel s] stands for the shorthand
+   form, [GList (LCons s LNil)] for the bracketed one.  [bracketed] forgets the choice. *)
+Definition short_form (s : selector) : bool :=
+  match s with SName _ | SWild | SKeys => true | _ => false end.
+
+Fixpoint brk_expr (e : fexpr) : fexpr :=
+  match e with
+  | FList items => FList (brk_exprs items)
+  | FNot r => FNot (brk_expr r)
+  | FInfix l o r => FInfix (brk_expr l) o (brk_expr r)
+  | FSelf p => FSelf (brk_segs p)
+  | FRoot f p => FRoot f (brk_segs p)
+  | FCtx p => FCtx (brk_segs p)
+  | FFunc n args => FFunc n (brk_exprs args)
+  | _ => e
+  end
+with brk_exprs (es : fexprs) : fexprs :=
+  match es with ENil => ENil | ECons e r => ECons (brk_expr e) (brk_exprs r) end
+with brk_sel (s : selector) : selector :=
+  match s with SFilter e => SFilter (brk_expr e) | _ => s end
+with brk_sels (l : sels) : sels :=
+  match l with LNil => LNil | LCons s r => LCons (brk_sel s) (brk_sels r) end
+with brk_seg (g : segment) : segment :=
+  match g with
+  | GSel s => if short_form s then GList (LCons s LNil) else GSel (brk_sel s)
+  | GDescent => GDescent
+  | GList items => GList (brk_sels items)
+  end
+with brk_segs (p : segs) : segs :=
+  match p with PNil => PNil | PCons g r => PCons (brk_seg g) (brk_segs r) end.
+
+Definition brk_path (p : jpath) : jpath := mkPath (p_fake p) (brk_segs (p_segs p)).
+Definition bracketed (q : query) : query :=
+  mkQuery (brk_path (q_first q)) (map (fun op => (fst op, brk_path (snd op))) (q_rest q)).
+
+(* the token printer of spec/TokPrint.v, except that a [GSel] of a name, the wildcard or the keys
+   selector is printed in shorthand: .name  *  ~ *)
+Section ShToks.
+  Variable E : env.
+
+  Fixpoint sh_expr_toks (e : fexpr) {struct e} : result (list token) :=
+    match e with
+    | FNil => Ok (tk1 TNil [110; 105; 108]%N)
+    | FUndefined => Ok (tk1 TUndefined [117; 110; 100; 101; 102; 105; 110; 101; 100]%N)
+    | FBool true => Ok (tk1 TTrue [116; 114; 117; 101]%N)
+    | FBool false => Ok (tk1 TFalse [102; 97; 108; 115; 101]%N)
+    | FInt z => Ok (tk1 TInt (str_of_Z z))
+    | FFloat n => t <- float_repr n ;; Ok (tk1 TFloat t)
+    | FStr s => Ok (tk1 TSQ (canonical_body s))
+    | FRegex p fl => Ok [mkTok TRePattern p; mkTok TReFlags (flags_text fl)]
+    | FList items => xs <- sh_exprs_toks items ;; Ok (mkTok TLBracket [91%N] :: sep_by [comma] xs ++ [mkTok TRBracket [93%N]])
+    | FNot r => x <- sh_expr_toks r ;; Ok (mkTok TNot [33%N] :: wrap_toks r x)
+    | FInfix l o r =>
+        a <- sh_expr_toks l ;; b <- sh_expr_toks r ;;
+        Ok (if is_logical o then lparen :: (a ++ op_token o :: b) ++ [rparen]
+            else wrap_toks l a ++ op_token o :: wrap_toks r b)
+    | FSelf p => x <- sh_segs_toks p ;; Ok (mkTok TSelf (e_self E) :: x)
+    | FRoot fake p => x <- sh_segs_toks p ;; Ok ((if fake then mkTok TFakeRoot (e_fake_root E) else mkTok TRoot (e_root E)) :: x)
+    | FCtx p => x <- sh_segs_toks p ;; Ok (mkTok TFilterCtx (e_filter_context E) :: x)
+    | FKey => Ok (tk1 TKey (e_key E))
+    | FFunc name args => xs <- sh_exprs_toks args ;; Ok (mkTok TFunction name :: sep_by [comma] xs ++ [rparen])
+    end
+  with sh_exprs_toks (es : fexprs) {struct es} : result (list (list token)) :=
+    match es with
+    | ENil => Ok []
+    | ECons e r => x <- sh_expr_toks e ;; xs <- sh_exprs_toks r ;; Ok (x :: xs)
+    end
+  with sh_canon_toks (e : fexpr) (parent : nat) {struct e} : result (list token) :=
+    match e with
+    | FInfix l BAnd r =>
+        a <- sh_canon_toks l 4 ;; b <- sh_canon_toks r 4 ;;
+        let x := a ++ op_token BAnd :: b in
+        Ok (if Nat.leb 4 parent then lparen :: x ++ [rparen] else x)
+    | FInfix l BOr r =>
+        a <- sh_canon_toks l 3 ;; b <- sh_canon_toks r 3 ;;
+        let x := a ++ op_token BOr :: b in
+        Ok (if Nat.leb 3 parent then lparen :: x ++ [rparen] else x)
+    | FNot r =>
+        a <- sh_canon_toks r 7 ;;
+        let x := mkTok TNot [33%N] :: a in
+        Ok (if Nat.ltb 7 parent then lparen :: x ++ [rparen] else x)
+    | FInfix l o r =>
+        a <- sh_expr_toks l ;; b <- sh_expr_toks r ;;
+        let x := wrap_toks l a ++ op_token o :: wrap_toks r b in
+        Ok (if Nat.leb 7 parent then lparen :: x ++ [rparen] else x)
+    | FNil => Ok (tk1 TNil [110; 105; 108]%N)
+    | FUndefined => Ok (tk1 TUndefined [117; 110; 100; 101; 102; 105; 110; 101; 100]%N)
+    | FBool true => Ok (tk1 TTrue [116; 114; 117; 101]%N)
+    | FBool false => Ok (tk1 TFalse [102; 97; 108; 115; 101]%N)
+    | FInt z => Ok (tk1 TInt (str_of_Z z))
+    | FFloat n => t <- float_repr n ;; Ok (tk1 TFloat t)
+    | FStr s => Ok (tk1 TSQ (canonical_body s))
+    | FRegex p fl => Ok [mkTok TRePattern p; mkTok TReFlags (flags_text fl)]
+    | FList items => xs <- sh_exprs_toks items ;; Ok (mkTok TLBracket [91%N] :: sep_by [comma] xs ++ [mkTok TRBracket [93%N]])
+    | FSelf p => x <- sh_segs_toks p ;; Ok (mkTok TSelf (e_self E) :: x)
+    | FRoot fake p => x <- sh_segs_toks p ;; Ok ((if fake then mkTok TFakeRoot (e_fake_root E) else mkTok TRoot (e_root E)) :: x)
+    | FCtx p => x <- sh_segs_toks p ;; Ok (mkTok TFilterCtx (e_filter_context E) :: x)
+    | FKey => Ok (tk1 TKey (e_key E))
+    | FFunc name args => xs <- sh_exprs_toks args ;; Ok (mkTok TFunction name :: sep_by [comma] xs ++ [rparen])
+    end
+  with sh_sel_toks (s : selector) {struct s} : result (list token) :=
+    match s with
+    | SName k => Ok (tk1 TSQ (canonical_body k))
+    | SIndex i => Ok (tk1 TInt (str_of_Z i))
+    | SSlice a b c =>
+        Ok [mkTok TSliceStart (opt_text a); mkTok TSliceStop (opt_text b);
+            mkTok TSliceStep (match c with Some z => str_of_Z z | None => [49%N] end)]
+    | SWild => Ok (tk1 TWild [42%N])
+    | SKeys => Ok (tk1 TKeys (e_keys E))
+    | SFilter e => x <- sh_canon_toks e 1 ;; Ok (mkTok TFilter [63%N] :: x)
+    end
+  with sh_sels_toks (l : sels) {struct l} : result (list (list token)) :=
+    match l with
+    | LNil => Ok []
+    | LCons s r => x <- sh_sel_toks s ;; xs <- sh_sels_toks r ;; Ok (x :: xs)
+    end
+  with sh_seg_toks (g : segment) {struct g} : result (list token) :=
+    let br (x : list token) := mkTok TLBracket [91%N] :: x ++ [mkTok TRBracket [93%N]] in
+    match g with
+    | GSel (SName k) => Ok (tk1 TProperty k)                                  (* .name *)
+    | GSel SWild => Ok (tk1 TWild [42%N])                                     (* * *)
+    | GSel SKeys => Ok (tk1 TKeys (e_keys E))                                 (* ~ *)
+    | GSel ((SSlice _ _ _) as s) => x <- sh_sel_toks s ;; Ok (br x)
+    | GSel s => sh_sel_toks s
+    | GDescent => Ok (tk1 TDDot [46; 46]%N)
+    | GList items => xs <- sh_sels_toks items ;; Ok (br (sep_by [comma] xs))
+    end
+  with sh_segs_toks (p : segs) {struct p} : result (list token) :=
+    match p with
+    | PNil => Ok []
+    | PCons g r => x <- sh_seg_toks g ;; xs <- sh_segs_toks r ;; Ok (x ++ xs)
+    end.
+
+  Definition sh_path_toks (p : jpath) : result (list token) :=
+    x <- sh_segs_toks (p_segs p) ;;
+    Ok ((if p_fake p then mkTok TFakeRoot (e_fake_root E) else mkTok TRoot (e_root E)) :: x).
+
+  Fixpoint sh_rest_toks (rest : list (setop * jpath)) : result (list token) :=
+    match rest with
+    | [] => Ok []
+    | (o, p) :: rest' =>
+        x <- sh_path_toks p ;; xs <- sh_rest_toks rest' ;;
+        Ok ((match o with OpUnion => mkTok TUnion (e_union E) | OpIntersect => mkTok TIntersect (e_intersection E) end) :: x ++ xs)
+    end.
+
+  Definition sh_query_toks (q : query) : result (list token) :=
+    x <- sh_path_toks (q_first q) ;; xs <- sh_rest_toks (q_rest q) ;; Ok (x ++ xs).
+End ShToks.
+
+(* ---- from tokens to lexemes: the remaining choices ------------------------------------------ *)
 
 (* Parser._decode_string_literal on a quoted body *)
 Definition requote (body : ustr) : ustr := replace2 92 39 [39%N] (replace1 34 [92; 34]%N body).
+(* (a JSON string has no raw control character; the parser tests this separately for names) *)
 Definition str_spells (s : ustr) (dq : bool) (body : ustr) : Prop :=
   quoted_body (if dq then 34%N else 39%N) body = true /\
+  existsb (fun c => N.ltb c 32) body = false /\
   json_loads_str (if dq then body else requote body) = Some s.
 
-Definition wrapx (e : fexpr) (x : list lexeme) : list lexeme :=
-  match e with
-  | FInfix _ o _ => if is_logical o then x else X TLParen [40%N] :: x ++ [X TRParen [41%N]]
-  | _ => x
-  end.
-
-Definition is_compound (e : fexpr) : bool := match e with FInfix _ _ _ | FNot _ => true | _ => false end.
-
-Definition step_text (c : option Z) : ustr := match c with Some z => str_of_Z z | None => [49%N] end.
-
-Definition brx (x : list lexeme) : list lexeme := X TLBracket [91%N] :: x ++ [X TRBracket [93%N]].
-
-(* the selector of a segment that consists of exactly one selector *)
-Definition single_sel (g : segment) : option selector :=
-  match g with
-  | GSel s => Some s
-  | GList (LCons s LNil) => Some s
-  | _ => None
-  end.
-
-Section FreeToks.
-  Variable E : env.
-
-  Definition xcomma : lexeme := X TComma [44%N].
-
-  Inductive fs_expr : fexpr -> list lexeme -> Prop :=
-  | fe_nil : fs_expr FNil [X TNil [110; 105; 108]%N]
-  | fe_undefined : fs_expr FUndefined [X TUndefined [117; 110; 100; 101; 102; 105; 110; 101; 100]%N]
-  | fe_true : fs_expr (FBool true) [X TTrue [116; 114; 117; 101]%N]
-  | fe_false : fs_expr (FBool false) [X TFalse [102; 97; 108; 115; 101]%N]
-  | fe_int z : fs_expr (FInt z) [X TInt (str_of_Z z)]
-  | fe_float n t : float_repr n = Ok t -> fs_expr (FFloat n) [X TFloat t]
-  | fe_str s dq body : str_spells s dq body -> fs_expr (FStr s) [XStr dq body]
-  | fe_regex p fl : fs_expr (FRegex p fl) [XRegex p (flags_text fl)]
-  | fe_list items xs : fs_exprs items xs -> fs_expr (FList items) (brx (sep_by [xcomma] xs))
-  | fe_not r x : fs_expr r x -> fs_expr (FNot r) (X TNot [33%N] :: wrapx r x)
-  | fe_infix l o r a b :
-      fs_expr l a -> fs_expr r b ->
-      fs_expr (FInfix l o r)
-        (if is_logical o then X TLParen [40%N] :: (a ++ Xop o :: b) ++ [X TRParen [41%N]]
-         else wrapx l a ++ Xop o :: wrapx r b)
-  | fe_self p x : fs_segs false p x -> fs_expr (FSelf p) (X TSelf (e_self E) :: x)
-  | fe_root fake p x :
-      fs_segs false p x ->
-      fs_expr (FRoot fake p) ((if fake then X TFakeRoot (e_fake_root E) else X TRoot (e_root E)) :: x)
-  | fe_ctx p x : fs_segs false p x -> fs_expr (FCtx p) (X TFilterCtx (e_filter_context E) :: x)
-  | fe_key : fs_expr FKey [X TKey (e_key E)]
-  | fe_func name args xs wp :
-      fs_exprs args xs -> fs_expr (FFunc name args) (XFunc name wp :: sep_by [xcomma] xs ++ [X TRParen [41%N]])
-  with fs_exprs : fexprs -> list (list lexeme) -> Prop :=
-  | fes_nil : fs_exprs ENil []
-  | fes_cons e r x xs : fs_expr e x -> fs_exprs r xs -> fs_exprs (ECons e r) (x :: xs)
-  (* BooleanExpression._canonical_string: the parentheses are the canonical ones *)
-  with fs_canon : fexpr -> nat -> list lexeme -> Prop :=
-  | fc_and l r parent a b :
-      fs_canon l 4 a -> fs_canon r 4 b ->
-      fs_canon (FInfix l BAnd r) parent
-        (let x := a ++ Xop BAnd :: b in
-         if Nat.leb 4 parent then X TLParen [40%N] :: x ++ [X TRParen [41%N]] else x)
-  | fc_or l r parent a b :
-      fs_canon l 3 a -> fs_canon r 3 b ->
-      fs_canon (FInfix l BOr r) parent
-        (let x := a ++ Xop BOr :: b in
-         if Nat.leb 3 parent then X TLParen [40%N] :: x ++ [X TRParen [41%N]] else x)
-  | fc_not r parent a :
-      fs_canon r 7 a ->
-      fs_canon (FNot r) parent
-        (let x := X TNot [33%N] :: a in
-         if Nat.ltb 7 parent then X TLParen [40%N] :: x ++ [X TRParen [41%N]] else x)
-  | fc_cmp l o r parent a b :
-      is_logical o = false -> fs_expr l a -> fs_expr r b ->
-      fs_canon (FInfix l o r) parent
-        (let x := wrapx l a ++ Xop o :: wrapx r b in
-         if Nat.leb 7 parent then X TLParen [40%N] :: x ++ [X TRParen [41%N]] else x)
-  | fc_leaf e parent x : is_compound e = false -> fs_expr e x -> fs_canon e parent x
-  with fs_sel : selector -> list lexeme -> Prop :=
-  | fl_name k dq body : str_spells k dq body -> fs_sel (SName k) [XStr dq body]
-  | fl_index i : fs_sel (SIndex i) [X TInt (str_of_Z i)]
-  | fl_slice a b c w1 w2 w3 w4 :
-      fs_sel (SSlice a b c) [XSlice (opt_text a) w1 w2 (opt_text b) w3 w4 (step_text c)]
-  | fl_wild : fs_sel SWild [X TWild [42%N]]
-  | fl_keys : fs_sel SKeys [X TKeys (e_keys E)]
-  | fl_filter e x : fs_canon e 1 x -> fs_sel (SFilter e) (X TFilter [63%N] :: x)
-  with fs_sels : sels -> list (list lexeme) -> Prop :=
-  | fls_nil : fs_sels LNil []
-  | fls_cons s r x xs : fs_sel s x -> fs_sels r xs -> fs_sels (LCons s r) (x :: xs)
-  (* a segment; the flag says that the previous segment is ".." *)
-  with fs_seg : bool -> segment -> list lexeme -> Prop :=
-  | fg_sel_bracket dd s x :                          (* a selector standing alone: [s] *)
-      bare_form s = true -> fs_sel s x -> fs_seg dd (GSel s) (brx x)
-  | fg_list dd items xs : fs_sels items xs -> fs_seg dd (GList items) (brx (sep_by [xcomma] xs))
-  | fg_descent dd : fs_seg dd GDescent [X TDDot [46; 46]%N]
-  | fg_dot dd g x :                                  (* a lone "." before "[" *)
-      fs_seg dd g (X TLBracket [91%N] :: x) -> fs_seg dd g (XDot :: X TLBracket [91%N] :: x)
-  (* shorthand for a single name, the wildcard, the keys selector *)
-  | fg_prop dd g k : single_sel g = Some (SName k) -> key_name k = true -> fs_seg dd g [XProp k]
-  | fg_bare g k : single_sel g = Some (SName k) -> bare_name k = true -> fs_seg true g [XBare k]
-  | fg_wild dd g : single_sel g = Some SWild -> fs_seg dd g [X TWild [42%N]]
-  | fg_dotwild dd g : single_sel g = Some SWild -> fs_seg dd g [XDot; X TWild [42%N]]
-  | fg_keys dd g : single_sel g = Some SKeys -> fs_seg dd g [X TKeys (e_keys E)]
-  | fg_dotkeys dd g : single_sel g = Some SKeys -> fs_seg dd g [XDot; X TKeys (e_keys E)]
-  with fs_segs : bool -> segs -> list lexeme -> Prop :=
-  | fp_nil dd : fs_segs dd PNil []
-  | fp_cons dd g r x xs :
-      fs_seg dd g x -> fs_segs (match g with GDescent => true | _ => false end) r xs ->
-      fs_segs dd (PCons g r) (x ++ xs).
-
-  Definition fs_path (p : jpath) (x : list lexeme) : Prop :=
-    exists xs, fs_segs false (p_segs p) xs /\
-               x = (if p_fake p then X TFakeRoot (e_fake_root E) else X TRoot (e_root E)) :: xs.
-
-  Fixpoint fs_rest (rest : list (setop * jpath)) (x : list lexeme) : Prop :=
-    match rest with
-    | [] => x = []
-    | (o, p) :: rest' =>
-        exists xp xs, fs_path p xp /\ fs_rest rest' xs /\
-          x = (match o with OpUnion => X TUnion (e_union E) | OpIntersect => X TIntersect (e_intersection E) end)
-              :: xp ++ xs
-    end.
-
-  Definition fs_query (q : query) (x : list lexeme) : Prop :=
-    exists xp xs, fs_path (q_first q) xp /\ fs_rest (q_rest q) xs /\ x = xp ++ xs.
-End FreeToks.
+(* Each token is written as a lexeme: a quoted name or string in either kind of quotes with any
+   body that decodes to the same string; a shorthand name with or without its dot; the three
+   slice tokens, the two regex tokens and a function name as one lexeme each, with blanks where
+   the scanner swallows them; a lone dot anywhere. *)
+Inductive lexemes_of : list token -> list lexeme -> Prop :=
+| lo_nil : lexemes_of [] []
+| lo_dot ts ls : lexemes_of ts ls -> lexemes_of ts (XDot :: ls)
+| lo_str s dq body ts ls :
+    str_spells s dq body ->
+    lexemes_of ts ls -> lexemes_of (mkTok TSQ (canonical_body s) :: ts) (XStr dq body :: ls)
+| lo_prop k ts ls : lexemes_of ts ls -> lexemes_of (mkTok TProperty k :: ts) (XProp k :: ls)
+| lo_bare k ts ls : lexemes_of ts ls -> lexemes_of (mkTok TProperty k :: ts) (XBare k :: ls)
+| lo_slice a b c w1 w2 w3 w4 ts ls :
+    lexemes_of ts ls ->
+    lexemes_of (mkTok TSliceStart a :: mkTok TSliceStop b :: mkTok TSliceStep c :: ts)
+               (XSlice a w1 w2 b w3 w4 c :: ls)
+| lo_regex p fl ts ls :
+    lexemes_of ts ls -> lexemes_of (mkTok TRePattern p :: mkTok TReFlags fl :: ts) (XRegex p fl :: ls)
+| lo_func name wp ts ls :
+    lexemes_of ts ls -> lexemes_of (mkTok TFunction name :: ts) (XFunc name wp :: ls)
+| lo_tok t ts ls : lexemes_of ts ls -> lexemes_of (t :: ts) (XTok t :: ls).
 
 (* ---- the statement's relation ------------------------------------------------------------- *)
 
-(* [t] is a spelling of [q], read by the scanner as the tokens [ts] *)
+(* [t] is a spelling of [q], read by the scanner as the tokens [ts]: some choice of shorthand
+   ([qs], the same query up to that choice), the lexemes of its tokens, blanks between them *)
 Definition spells_as (E : env) (q : query) (t : ustr) (ts : list token) : Prop :=
-  exists items wf,
-    fs_query E q (map snd items) /\ chain_ok E items wf /\ t = render items wf /\ ts = chain_toks items.
+  exists qs ts0 items wf,
+    bracketed qs = bracketed q /\ sh_query_toks E qs = Ok ts0 /\
+    lexemes_of ts0 (map snd items) /\ chain_ok E items wf /\ t = render items wf /\ ts = chain_toks items.
 
 Definition spells (E : env) (q : query) (t : ustr) : Prop := exists ts, spells_as E q t ts.
